@@ -71,6 +71,12 @@ class System:
         # reference is compared at a tolerance that allows for the conditioning (mean/std ~ 1e6) of that case
         self.rtol = root.get("rtol", RTOL)
         self.W = len(self.curves)
+        if root.get("big"):
+            # many windows: manual rejections / re-acceptances in the middle of the record only
+            mid = [self.W // 4 + 3, self.W // 2, (3 * self.W) // 4 + 1]
+            self.ops = [dict(op="M", i=i) for i in mid] + [dict(op="A", i=mid[1])] + \
+                       [dict(op="X", i=mid[0], j=mid[2]), dict(op="X", i=mid[2], j=mid[1])]
+            return
         ops = []
         for r in range_menu(self.freq):
             for kw in (None, {}):
@@ -211,7 +217,11 @@ class System:
         for d in DISTS:
             exp = {}
             if d != "normal" and zero_in_accepted:
-                ctx.count("lognormal_curves_skipped_zero_amplitude_accepted")   # log(0): outside the estimator's domain
+                # log(0): the spread is undefined (outside the estimator's domain), but the geometric mean of a
+                # set that contains a zero IS zero, and is the plain estimator at every other frequency
+                ctx.count("lognormal_curves_skipped_zero_amplitude_accepted")
+                cols = list(zip(*rows))
+                exp["mean_curve"] = [0.0 if any(v == 0.0 for v in col) else RS.mean(list(col), d) for col in cols]
             else:
                 exp["mean_curve"] = RS.mean_curve(rows, d)
                 exp["std_curve"] = RS.std_curve(rows, d)
@@ -285,6 +295,24 @@ class System:
                                       detail=dict(hist=list(hist), distribution=d), expected=m, observed=[lo, hi],
                                       explanation="+n and -n standard-deviation values are not symmetric "
                                                   "about the mean/median")
+        # every spelling the library accepts for a distribution is the same distribution
+        for canonical, other in (("lognormal", "LogNormal"), ("lognormal", "LOG-NORMAL"), ("normal", "Normal")):
+            for name, args in (("mean_fn_frequency", ()), ("std_fn_frequency", ()), ("std_fn_amplitude", ()),
+                               ("nth_std_fn_frequency", (1,)), ("cov_fn", ()), ("mean_curve", ()), ("std_curve", ()),
+                               ("nth_std_curve", (-1,))):
+                a = _call(o, name, args, canonical)
+                b = _call(o, name, args, other)
+                if isinstance(b, tuple) and b and b[0] == "raised":
+                    # a spelling that an accessor refuses (loudly) is not a distribution it computes
+                    ctx.count("spelling_refused_by_accessor")
+                    continue
+                ctx.count("spelling_comparisons")
+                if _nonan(a) != _nonan(b):
+                    ctx.violation(f"C05:{name}:spelling-of-the-distribution:{cls}", root,
+                                  detail=dict(hist=list(hist), accessor=name, spellings=[canonical, other]),
+                                  expected=_nonan(a), observed=_nonan(b),
+                                  explanation=f"{name}({other!r}) differs from {name}({canonical!r}) although the "
+                                              f"library accepts both spellings for the same distribution")
         # reciprocal (period) consistency, ranges with on-grid or open limits only
         if len(acc_pk) >= 2 and not nanpeak:
             self._reciprocal(h, hist, ctx, root, vw, vp)
@@ -405,6 +433,11 @@ NEAR_ROOTS = [dict(grid="lin", F=7, shapes=["p3"] * 4, depth=1, scale_step=2.0 *
               dict(grid="geo", F=7, shapes=["twopk"] * 3, depth=1, scale_step=2.0 ** -19, rtol=1e-6)]
 
 
+# a record of 1500 windows (statistics are looked at between the operations: touch mode)
+BIG_ROOT = dict(grid="lin", F=7, shapes=(["p2", "p3", "p4", "twopk", "p3", "q3"] * 250), depth=2, touch=True,
+                big=True, scale_step=2.0 ** -10)
+
+
 def roots(tier, seed):
     if tier == "quick":
         sets = [["p2", "p4", "twopk", "p3"], ["p1", "p5", "p3", "q3"], ["p2", "p2", "p4", "up"],
@@ -419,6 +452,7 @@ def roots(tier, seed):
         # a window with exactly zero amplitude at some frequencies: once rejected it must not matter
         out.append(dict(grid="lin", F=7, shapes=["p3", "dead", "p4", "p2"], depth=2, reaccept=True))
         out += NEAR_ROOTS
+        out.append(BIG_ROOT)
         return out
     out = []
     for r in A.curve_set_roots([3], 7, A.REDUCED_SHAPES + ["steep_up"], grids=("lin",)):
@@ -428,6 +462,7 @@ def roots(tier, seed):
     out.append(dict(grid="lin", F=7, shapes=["p3", "dead", "p4", "p2"], depth=2, reaccept=True))
     out.append(dict(grid="lin", F=7, shapes=["dead", "p3", "p4"], depth=3, reaccept=True))
     out += NEAR_ROOTS
+    out.append(dict(BIG_ROOT, depth=3))
     for s in (["p2", "p4", "twopk", "p3"], ["p2", "p3", "p5"], ["p1", "q3", "tie"], ["p2", "steep_up", "p2"]):
         out.append(dict(grid="lin", F=7, shapes=s, depth=3 if len(s) == 3 else 2, touch=True, reaccept=True))
     for s in (["p1", "p2", "p3", "p4", "p5"], ["p2", "twopk", "up", "p4", "q3"],
